@@ -471,7 +471,7 @@ def product_predictions(fl, azm):
     return dict(total=tot, average=[f * f for f in fl], slice=sl)
 
 
-def hyper_values(rec, native_cl):
+def hyper_values(rec):
     """values of the hyper-parameters at the recipe's latent (closed-form prior transforms)"""
     out = []
     for sp in rec["spaces"]:
@@ -503,7 +503,8 @@ def spectrum_checks(rec, A, hv, azm, impl, classes):
         # "outer product of the individual power spectra"
         outer = np.multiply.outer(marg[0], marg[1])
         close(spec * spec[zero], outer, "spectrum_not_outer_product", tol=1e-9,
-              scale=max(1e-300, float(np.max(np.abs(outer)))))
+              scale=max(1e-300, float(np.max(np.abs(outer))),
+                        1e-19 * float(np.prod(full)) ** 2 * float(np.max(spec)) * float(spec[zero])))
         classes.append("outer_product_structure")
     for sp, m, v in zip(rec["spaces"], marg, hv):
         g = sp["grid"]
@@ -513,7 +514,8 @@ def spectrum_checks(rec, A, hv, azm, impl, classes):
         ks, ms = k.reshape(-1)[order], m.reshape(-1)[order]
         same = np.abs(np.diff(ks)) <= 1e-12 * ks[-1]
         if np.any(same):
-            close(ms[1:][same], ms[:-1][same], "spectrum_not_isotropic", tol=1e-9, scale=max(1e-300, float(np.max(ms))))
+            close(ms[1:][same], ms[:-1][same], "spectrum_not_isotropic", tol=1e-9,
+                  scale=max(1e-300, float(np.max(ms)), 1e-19 * float(np.prod(full)) ** 2 * float(np.max(spec))))
         ref = None
         if sp["model"] == "matern":
             ref = matern_mode_variance(sp, v, k, renorm=(impl == "re" and sp.get("renorm", False)),
@@ -525,8 +527,10 @@ def spectrum_checks(rec, A, hv, azm, impl, classes):
         if ref is not None:
             mm = m.copy()
             mm[(0,) * k.ndim] = 0.0
+            # floor: FFT round-off of the largest columns leaks (eps * a_max)^2 * N into every mode
+            floor = 1e-19 * float(np.prod(full)) ** 2 * float(np.max(spec))
             close(mm, ref, "spectrum_vs_closed_form", tol=1e-9,
-                  scale=max(1e-300, float(np.max(np.abs(ref))), float(np.max(np.abs(mm)))))
+                  scale=max(1e-300, float(np.max(np.abs(ref))), float(np.max(np.abs(mm))), floor))
     return spec
 
 
@@ -563,6 +567,11 @@ def cl_scalar(x, clat):
 
 
 def check_scale_cl(rec):
+    with convention(rec["conv"]):
+        return _scale_cl(rec)
+
+
+def _scale_cl(rec):
     # the classic parameters describe the power spectrum (non-parametric) / the amplitude (Matern docstring formula)
     rec = dict(rec, spaces=[dict(sp, kind="power" if sp["model"] == "np" else "amplitude") for sp in rec["spaces"]])
     classes = space_classes(rec)
@@ -570,14 +579,22 @@ def check_scale_cl(rec):
     shapes = [grid_shape(sp["grid"]) for sp in rec["spaces"]]
     cfm, op = build_cl(rec, native=True)
     clat = cl_latents(rec, op)
-    A, base = dense_cl(op, clat, rec["prefix"] + "xi")
+    # the excitation matrix is taken from the same model with offset_mean = 0 (a non-zero constant would cost the
+    # small columns of A their relative accuracy); the configured offset is checked on the field itself
+    _, op0 = build_cl(dict(rec, om=0.0), native=True)
+    A, base = dense_cl(op0, clat, rec["prefix"] + "xi")
     if not (np.all(np.isfinite(A)) and np.all(np.isfinite(base))):
         require(not any(two_bins(sp["grid"]) and sp["model"] == "np" and sp["flex"] is not None
                         for sp in rec["spaces"]), "non_finite_field_single_mode_length")
         raise Discard()
-    close(base, np.full(base.shape, float(rec["om"])), "offset_mean", tol=1e-12, scale=max(1.0, abs(rec["om"])))
+    amax = max(1e-300, float(np.max(np.abs(A))))
+    close(base, np.zeros(base.shape), "field_without_excitations_not_offset_mean", tol=1e-12, scale=amax)
+    xi = np.asarray(clat[rec["prefix"] + "xi"].asnumpy()).reshape(-1)
+    f_full = np.asarray(op(clat).asnumpy()).reshape(-1)
+    close(f_full, float(rec["om"]) + A @ xi, "offset_mean", tol=1e-9,
+          scale=abs(rec["om"]) + amax * max(1.0, float(np.sum(np.abs(xi)))))
     st_ = exact_stats(A, shapes)
-    hv, azm = hyper_values(rec, True)
+    hv, azm = hyper_values(rec)
     zm = rec["zm"]
     classes.append("zm_lognormal" if isinstance(zm, list) else "zm_none" if zm is None else "zm_scalar")
     # ---- the model's own predictions, evaluated at the latent
@@ -603,10 +620,28 @@ def check_scale_cl(rec):
         close(per_mode / V ** 2, spec, "power_spectrum_accessor_vs_covariance", tol=1e-9,
               scale=max(1e-300, float(np.max(np.abs(spec)))))
         classes.append("power_spectrum_accessor")
+    sp0 = rec["spaces"][0]
+    if not multi and sp0["model"] == "np" and (zm is None or isinstance(zm, list)):
+        # SimpleCorrelatedField is documented as the single-spectrum special case of the maker (incl. offset_std=None)
+        pre = rec["prefix"] + sp0["pre"]
+        scf = ift.SimpleCorrelatedField(cl_space(sp0["grid"]), rec["om"], None if zm is None else tuple(zm),
+                                        tuple(sp0["fluct"]), None if sp0["flex"] is None else tuple(sp0["flex"]),
+                                        None if sp0["asp"] is None else tuple(sp0["asp"]), tuple(sp0["slope"]), prefix=pre)
+        d = {}
+        for k in scf.domain.keys():
+            nm = k[len(pre):]
+            src = rec["prefix"] + nm if nm in ("xi", "zeromode") else k
+            require(k.startswith(pre) and src in clat.keys(), "simple_key_name", k)
+            d[k] = ift.makeField(scf.domain[k], clat[src].asnumpy())
+        f_s = np.asarray(scf(ift.MultiField.from_dict(d, scf.domain)).asnumpy())
+        f_m = f_full.reshape(f_s.shape) if f_s.size == f_full.size else f_full
+        close(f_s, f_m, "field_simple_vs_maker", tol=1e-9,
+              scale=max(abs(rec["om"]), float(np.max(np.abs(f_m))), 1e-300))
+        classes.append("simple_correlated_field")
     # ---- metamorphic: same hyper-latents on a re-gridded domain
     if rec.get("meta") is not None and all(sp["model"] == "np" for sp in rec["spaces"]):
         rec2 = regrid(rec)
-        cfm2, op2 = build_cl(rec2, native=True)
+        cfm2, op2 = build_cl(dict(rec2, om=0.0), native=True)
         clat2 = cl_latents(rec2, op2)
         A2, base2 = dense_cl(op2, clat2, rec["prefix"] + "xi")
         if np.all(np.isfinite(A2)):
@@ -618,22 +653,31 @@ def check_scale_cl(rec):
 
 
 def check_scale_re(rec):
+    with convention(rec["conv"]):
+        return _scale_re(rec)
+
+
+def _scale_re(rec):
     classes = space_classes(rec)
     multi = len(rec["spaces"]) >= 2
     shapes = [grid_shape(sp["grid"]) for sp in rec["spaces"]]
     jcfm, jop = build_re(rec)
     jlat = re_latents(rec, jop)
-    A, base = dense_re(jop, jlat, rec["prefix"] + "xi")
+    _, jop0 = build_re(dict(rec, om=0.0))      # see _scale_cl
+    A, base = dense_re(jop0, jlat, rec["prefix"] + "xi")
     if not (np.all(np.isfinite(A)) and np.all(np.isfinite(base))):
         raise Discard()
-    close(base, np.full(base.shape, float(rec["om"])), "offset_mean", tol=1e-12, scale=max(1.0, abs(rec["om"])))
+    amax = max(1e-300, float(np.max(np.abs(A))))
+    close(base, np.zeros(base.shape), "field_without_excitations_not_offset_mean", tol=1e-12, scale=amax)
+    xi = np.asarray(jlat[rec["prefix"] + "xi"]).reshape(-1)
+    f_full = np.asarray(jop(jlat)).reshape(-1)
+    close(f_full, float(rec["om"]) + A @ xi, "offset_mean", tol=1e-9,
+          scale=abs(rec["om"]) + amax * max(1.0, float(np.sum(np.abs(xi)))))
     st_ = exact_stats(A, shapes)
-    hv, azm = hyper_values(rec, False)
-    spec = spectrum_checks(rec, A, hv, azm, "re", classes)
+    hv, azm = hyper_values(rec)
+    spectrum_checks(rec, A, hv, azm, "re", classes)
     fl = []
-    ofs = 0
-    full = [n for s in shapes for n in s]
-    for sp, v, s in zip(rec["spaces"], hv, shapes):
+    for sp, v in zip(rec["spaces"], hv):
         if sp["model"] == "np":
             fl.append(v["fluctuations"])
         elif sp.get("renorm", False):
@@ -642,12 +686,11 @@ def check_scale_re(rec):
         else:
             g = sp["grid"]
             fl.append(float(np.sqrt(np.sum(matern_mode_variance(sp, v, klen(g["shape"], g["dist"]))))))
-        ofs += len(s)
     pred = product_predictions(fl, azm)
     compare_stats(st_, pred, azm, "", multi)
     if rec.get("meta") is not None and all(sp["model"] == "np" or sp.get("renorm", False) for sp in rec["spaces"]):
         rec2 = regrid(rec)
-        jcfm2, jop2 = build_re(rec2)
+        jcfm2, jop2 = build_re(dict(rec2, om=0.0))
         A2, _ = dense_re(jop2, re_latents(rec2, jop2), rec["prefix"] + "xi")
         if np.all(np.isfinite(A2)):
             st2 = exact_stats(A2, [grid_shape(sp["grid"]) for sp in rec2["spaces"]])
@@ -835,34 +878,34 @@ def scale_recipes(impl, models):
 
 NT = "non-trivial = two sub-spaces or a sub-space volume different from 1"
 SUBS = [
-    Sub(name="agree_single", check=check_agree, strategy=agree_recipes(1), quick=400, thorough=12000, shards=8,
-        jax=True,
+    Sub(name="agree_single", check=check_agree, strategy=agree_recipes(1), quick=320, thorough=12000, shards=8,
+        jax=True, budget_quick=45.0,
         rule="one sub-space (regular grid or HEALPix), non-parametric (both kinds) or Matern, both Hartley "
              "conventions: nifty.cl maker == nifty.re maker (field and power-spectrum accessor, 1e-9) and "
              "== SimpleCorrelatedField for non-parametric spectra; " + NT),
-    Sub(name="agree_product", check=check_agree, strategy=agree_recipes(2), quick=240, thorough=8000, shards=8,
-        jax=True,
+    Sub(name="agree_product", check=check_agree, strategy=agree_recipes(2), quick=192, thorough=8000, shards=8,
+        jax=True, budget_quick=45.0,
         rule="two sub-spaces with independently generated (mixed) amplitude models: nifty.cl maker == nifty.re "
              "maker (field, 1e-9), latents mapped by the documented key names; " + NT),
-    Sub(name="agree_single_mode_length", check=check_agree, strategy=degenerate_recipes, quick=64, thorough=1000,
-        shards=4, jax=True,
+    Sub(name="agree_single_mode_length", check=check_agree, strategy=degenerate_recipes, quick=48, thorough=1000,
+        shards=4, jax=True, budget_quick=45.0,
         rule="a 1-D sub-space of size 2 or 3 (one non-zero mode length) configured with flexibility (and asperity), "
              "alone or next to a second generated sub-space: nifty.re ignores the undefined smooth deviations, "
              "nifty.cl must give the same finite field; " + NT),
     Sub(name="scale_cl_nonparametric", check=check_scale_cl, strategy=scale_recipes("cl", ["np"]), quick=320,
-        thorough=8000, shards=16,
+        thorough=8000, shards=8, budget_quick=35.0,
         rule="classic maker, non-parametric amplitudes, 1-2 regular sub-spaces, zero mode log-normal / scalar / None: "
              "exact E[total / average / slice / offset] from the dense excitation matrix == cfm.total_fluctuation, "
              "average_fluctuation, slice_fluctuation, amplitude_total_offset at the latent (1e-9); stationary "
              "covariance, outer-product spectrum, pure power law closed form; statistics invariant under doubling "
              "the resolution at fixed volume and under rescaling the distances; " + NT),
     Sub(name="scale_cl_matern", check=check_scale_cl, strategy=scale_recipes("cl", ["matern"]), quick=240,
-        thorough=6000, shards=16,
+        thorough=6000, shards=8, budget_quick=35.0,
         rule="classic maker with at least one Matern amplitude (adjust_for_volume on/off for single spectra): same "
              "exact statistics vs the model's predicted fluctuations, per-mode variances == docstring kernel "
              "a^2 (1+(k/b)^2)^(c/2) / V; " + NT),
-    Sub(name="scale_re", check=check_scale_re, strategy=scale_recipes("re", ["np", "np", "matern"]), quick=240,
-        thorough=8000, shards=8, jax=True,
+    Sub(name="scale_re", check=check_scale_re, strategy=scale_recipes("re", ["np", "np", "matern"]), quick=192,
+        thorough=8000, shards=8, jax=True, budget_quick=45.0,
         rule="nifty.re maker, power and amplitude kind, Matern with and without renormalize_amplitude: exact "
              "statistics from the dense excitation matrix == fluctuations / scale / zeromode parameters at the latent "
              "combined by the documented product formulas; closed-form spectra; re-gridding invariance; " + NT),
